@@ -327,6 +327,9 @@ def gen_scale(rng):
 def gen_pair(rng, T):
     """reference and estimate with a controlled SI-SDR between about -30 and +60 dB"""
     s = rng.normal(size=T)
+    if rng.random() < 0.15:
+        # a nearly perfect estimate (SI-SDR 100..150 dB): the residual must be formed before its energy is taken
+        return s, rng.normal() * s + rng.normal(size=T) * _log_uniform(rng, 3e-8, 1e-5)
     e = rng.normal() * s + rng.normal(size=T) * _log_uniform(rng, 1e-3, 30) + (rng.normal() if rng.random() < 0.3 else 0)
     return s, e
 
